@@ -359,10 +359,23 @@ fn c14_big(_cfg: &Cfg, rep: &mut Report, case_seed: u64) {
         let text = g.canonical();
         let want = oracle::gen::tall_grounded(&g);
         (g, text, Some(want))
-    } else {
+    } else if rng.bool() {
         let (g, text, sem) = crate::sem::large_case(case_seed);
         let (gr, _) = sem.grounded_rounds();
         (g, text, Some(gr))
+    } else {
+        let m = crate::sem::mid_case(case_seed, false);
+        (m.g, m.text, Some(m.grounded))
+    };
+    // the other semantics by definition, among the refinements of the grounded interpretation (few statements undecided)
+    let want_models: Option<(Vec<Vec<Val>>, Vec<Vec<Val>>)> = if tall {
+        None
+    } else {
+        let sem = oracle::sem::BigSem::new(&g.ac);
+        match (sem.complete(8), sem.stable(12)) {
+            (Some(c), Some(s)) => Some((sorted(c), sorted(s))),
+            _ => None,
+        }
     };
     rep.evaluations += 1;
     rep.count(if tall { "big_roundtrips_tall" } else { "big_roundtrips_random" }, 1);
@@ -464,6 +477,37 @@ fn c14_big(_cfg: &Cfg, rep: &mut Report, case_seed: u64) {
             Err(c) => {
                 rep.violation(&format!("history-call:{}", c.kind()), format!("grounded on the {} copy: {}", name, c.describe()), replay(name));
                 return;
+            }
+        }
+        // every semantics answer of the copy equals the definition (hence the original's)
+        if let Some((want_c, want_s)) = &want_models {
+            let r = guarded(SMALL_BUDGET * 50, || {
+                let c: Vec<Vec<Term>> = obj.complete().collect();
+                let s: Vec<Vec<Term>> = obj.stable().collect();
+                let ng: Vec<Vec<Term>> = obj.stable_nogood(adf_bdd::adf::heuristics::Heuristic::Simple).collect();
+                let ca: Vec<Vec<Term>> = obj.stable_count_optimisation_heu_a().collect();
+                (c, s, ng, ca)
+            });
+            match r {
+                Ok((c, s, ng, ca)) => {
+                    for (what, got, want) in [("complete", c, want_c), ("stable", s, want_s), ("stable_nogood", ng, want_s), ("stable_count_a", ca, want_s)] {
+                        rep.count("imported_model_sets_compared_big", 1);
+                        let got = sorted(to_vals_set(&got, &perm));
+                        if got != *want {
+                            rep.violation(
+                                "imported-answer-differs",
+                                format!("{} on the {} copy of a framework with {} statements: {:?}, the definition gives {:?}", what, name, g.n,
+                                    got.iter().map(|m| show_vals(m)).collect::<Vec<_>>(), want.iter().map(|m| show_vals(m)).collect::<Vec<_>>()),
+                                replay(name),
+                            );
+                            return;
+                        }
+                    }
+                }
+                Err(c) => {
+                    rep.violation(&format!("history-call:{}", c.kind()), format!("models on the {} copy: {}", name, c.describe()), replay(name));
+                    return;
+                }
             }
         }
     }
